@@ -268,7 +268,7 @@ def gen_c18_cfg(rng, max_days=60):
     n = rng.randint(5, 8)
     cfg = sesswl.gen_cfg(rng, alpha_kinds=('topn_mom', 'topn_mom', 'single', 'mom_sign', 'inv_vol', 'fixed', 'fixed'),
                          universe_kinds=('dynamic',), max_days=max_days, n_assets=n, full_data=rng.random() < 0.6,
-                         rebalances=('daily', 'daily', 'weekly', 'end_of_month'))
+                         rebalances=('daily', 'daily', 'weekly', 'end_of_month', 'end_of_month'))
     # rename assets so that their hashes differ between interpreters in an interesting way
     syms = cfg['market']['assets']
     ren = dict(zip(syms, rng.sample(C18_SYMS, len(syms))))
@@ -468,6 +468,56 @@ def run_c18_case(case, acc):
                 acc.count('C18:reused_alpha_model_pairs')
             finally:
                 world.close()
+        # (g) a session over the same period and schedule but with another (later) burn-in ran first, from its own objects
+        insts = refmodel.rebalance_instants(dict(cfg, burn_in=None))
+        if len(insts) >= 2:
+            later = insts[len(insts) // 2] + dt.timedelta(hours=rng.choice([0, 1, 3]))
+            prior = json.loads(json.dumps(cfg))
+            prior['burn_in'] = str(later)
+            one_digest(prior)
+            d7, r7, _ = one_digest(cfg)
+            acc.count('C18:runs', 2)
+            if d7 != d1:
+                k, i, x, y = first_difference(r1, r7)
+                raise Violation('C18', 'after-session-with-other-burn-in/%s' % k, 'a run made after a session over the same period with a '
+                                'later burn-in (own objects) differs at %s #%d: %s vs %s' % (k, i, x, y), {'mode': 'other-burn-in-first'})
+            acc.count('C18:runs_after_a_session_with_another_burn_in')
+        # (h) no data handler and no QSTRADER_CSV_DATA_DIR: prices come from the current directory (documented fallback);
+        # first from another market's directory, then from this market's - compared with the reference run
+        if case.get('cwd_mode', True):
+            cfgh = json.loads(json.dumps(cfg))
+            cfgh.pop('market2', None)
+            cfgh['market']['adjust'] = True
+            if cfgh['alpha']['kind'] not in ('fixed', 'single'):
+                cfgh['alpha'] = {'kind': 'single', 'signal': 1.0}
+                cfgh['long_only'] = True
+                cfgh.setdefault('buffer', 0.05)
+                cfgh.pop('leverage', None)
+            d1h, r1h, _ = one_digest(cfgh)            # reference: explicit data handler on the same files
+            other = json.loads(json.dumps(cfgh))
+            other['market']['seed'] = cfg['market']['seed'] + 4242
+            keep_env, keep_cwd = os.environ.pop('QSTRADER_CSV_DATA_DIR', None), os.getcwd()
+            try:
+                for c_ in (other, cfgh):
+                    w_ = sesswl.make_world(c_)
+                    try:
+                        os.chdir(w_.dir)
+                        tr_ = sesswl.run_session(dict(c_, default_handler='cwd'), w_)
+                        res_ = results(tr_)
+                    finally:
+                        os.chdir(keep_cwd)
+                        w_.close()
+                acc.count('C18:runs', 2)
+                if digest(res_) != d1h:
+                    k, i, x, y = first_difference(r1h, res_)
+                    raise Violation('C18', 'cwd-fallback-after-another-directory/%s' % k, 'a session that reads its prices from the '
+                                    'current directory, run after one started from another directory, differs at %s #%d: %s vs %s'
+                                    % (k, i, x, y), {'mode': 'cwd-fallback'})
+                acc.count('C18:cwd_fallback_pairs')
+            finally:
+                if keep_env is not None:
+                    os.environ['QSTRADER_CSV_DATA_DIR'] = keep_env
+                os.environ.pop('QSTRADER_CSV_DATA_DIR', None) if keep_env is None else None
         # (c) fresh interpreters with other string-hash seeds
         scratch = tempfile.mkdtemp(prefix='qsmon-c18-')
         try:
